@@ -289,7 +289,10 @@ func (w *World) loadAt(s *State, use func(MemRef), a *Addr) Term {
 	m := w.memFor(a)
 	mt := stateMem(s, use, m)
 	if a.isElem {
-		return mkTerm(w, sel(sel(mt, a.base), a.idx), a.elem)
+		return mkTerm(w, sel(innerOf(s, m, mt, a.base), a.idx), a.elem)
+	}
+	if r, ok := s.inner[m.Name]; ok && r.memTerm == mt && r.base == a.base {
+		return mkTerm(w, r.val, a.elem) // read of the cell that was written last
 	}
 	return mkTerm(w, sel(mt, a.base), a.elem)
 }
@@ -314,9 +317,12 @@ func (w *World) storeAt(s *State, use func(MemRef), a *Addr, v string) {
 	m := w.memFor(a)
 	mt := stateMem(s, use, m)
 	if a.isElem {
-		s.mem[m.Name] = sto(mt, a.base, sto(sel(mt, a.base), a.idx, v))
+		nv := sto(innerOf(s, m, mt, a.base), a.idx, v)
+		s.mem[m.Name] = sto(mt, a.base, nv)
+		s.noteInner(m.Name, a.base, nv)
 	} else {
 		s.mem[m.Name] = sto(mt, a.base, v)
+		s.noteInner(m.Name, a.base, v)
 	}
 }
 
